@@ -278,7 +278,9 @@ def c10(tier):
 def c11(tier):
     build(("release",))
     c = Check("C11", tier, "exploration")
-    c.explore(wf_corpus(tier, Q(tier, "two", "six"), sample_q=41, sample_t=211), "width", ["C11"], sample_cap=Q(tier, 60, 300))
+    tasks = seed_tasks(Q(tier, "default", "two"), sample_every=Q(tier, 211, 499))
+    tasks += program_tasks(tier, Q(tier, "default", "two"), Q(tier, [PLAIN], [PLAIN, COMMENTS]), sample_every=Q(tier, 499, 4999))
+    c.explore(tasks, "width", ["C11"], sample_cap=Q(tier, 12, 100))
     return c.finish(
         rule="seeds and generated programs formatted at widths {10,20,40,80,120,200} plus the critical widths around the line lengths of their own output; every pair W1 < W2 is a `width` relation of Session.tla (three clauses)")
 
@@ -294,3 +296,121 @@ def c15(tier):
     return c.finish(
         rule="for every input a cursor list (every token start and end, offsets inside blanks and inside multi-line tokens, 0, end, end+1, end+7, 2^32-1; at most 400 per input) is tracked; "
              "clauses: text unchanged (relation cursor), within output on a character boundary, same offset inside an unchanged token, beyond the end -> end")
+
+
+# =====================================================================================================  grammar-generated programs
+
+_progs = {}
+
+
+def gen_programs(tier, which=("file", "stmts", "types", "routine")):
+    """TLC derives programs from Grammar.tla (simulation of Gen.tla); returns the path of the ndjson file."""
+    key = (tier, tuple(which))
+    if key in _progs:
+        return _progs[key]
+    num = Q(tier, {"file": 500, "stmts": 700, "types": 300, "routine": 300}, {"file": 6000, "stmts": 8000, "types": 3000, "routine": 3000})
+    progs, seen = [], set()
+    cov = {}
+    for w in which:
+        r = tlc("Gen", f"Gen_{w}.cfg", workers=1, timeout=1800, simulate=num[w], depth=4000, name=f"gen_{w}", jvm=["-Xmx4g", "-Xss64m"], coverage=False)
+        beh = [p for t, p in r["replay"]]
+        if not beh:
+            raise ToolError(f"Gen_{w}: no derivations printed\n" + tlc_error_text(r))
+        for b in beh:
+            k = json.dumps(b["items"])
+            if k not in seen and sum(1 for it in b["items"] if it[0] == "t") >= 2:
+                seen.add(k)
+                progs.append(b)
+    path = os.path.join(WORK, f"programs_{tier}_{'_'.join(which)}.ndjson")
+    write_ndjson(path, progs)
+    _progs[key] = (path, len(progs))
+    log(f"[gen] {len(progs)} distinct programs derived by TLC")
+    return _progs[key]
+
+
+PLAIN = {"mode": 1}
+MIXED = {"mode": 2, "tight": True, "blank_lines": True}
+COMMENTS = {"mode": 2, "comments": True, "blank_lines": True, "tight": True}
+DIRECTIVES = {"mode": 1, "comments": True, "directives": True, "blank_lines": True}
+ONELINE = {"mode": 0}
+ALLBREAKS = {"mode": 3}
+CRLFTABS = {"mode": 4, "blank_lines": True}
+REGIONS = {"mode": 1, "regions": True, "comments": True}
+REGIONS2 = {"mode": 2, "regions": True}
+
+
+def program_tasks(tier, cfgs, variants, alts=(), chunks=48, **kw):
+    path, n = gen_programs(tier)
+    params = {"path": path, "variants": [[SEED * 100 + i, SEED * 1000 + i, v] for i, v in enumerate(variants)], "alts": [[SEED * 7 + i, m] for i, m in enumerate(alts)]}
+    total = n * len(variants)
+    return split_tasks("programs", params, total, [], cfgs, chunks=chunks, **kw)
+
+
+def gen_tasks(tier, cfgs, **kw):
+    """generated programs in three layouts, for the properties whose corpus is 'well-formed programs'"""
+    return program_tasks(tier, cfgs, [PLAIN, COMMENTS, DIRECTIVES], **kw)
+
+
+def c02(tier):
+    build(("release",))
+    c = Check("C02", tier, "model_checking")
+    tasks = program_tasks(tier, Q(tier, "six", "wide"), [PLAIN, MIXED, COMMENTS, DIRECTIVES, ONELINE, ALLBREAKS, CRLFTABS], cfg_mode="rotate", sample_every=Q(tier, 199, 1999))
+    tasks += seed_tasks(Q(tier, "six", "wide"), sample_every=Q(tier, 97, 997))
+    c.explore(tasks, "rescan", ["C02", "C13"], sample_cap=Q(tier, 150, 800))
+    return c.finish(
+        rule="programs derived by TLC from Grammar.tla, rendered in 7 layout families (pretty, random gaps incl. tight, comments in every placement class, whole statements/declarations wrapped in conditional directives, one line, every gap a break, CRLF+tabs) x rotating configurations, and all seeds: "
+             "scan(input) and scan(output) must be the same token list up to the documented normalisations. The scanner is the real one, which TLC checks against Lexer.tla on the sampled inputs AND outputs (C13_Agrees) in the same run")
+
+
+def c05(tier):
+    build(("release",))
+    c = Check("C05", tier, "model_checking")
+    cfgs = [{"begin_style": b, "wrap_column": w, "tab_width": tw, "use_tabs": t, "continuation_indents": ci}
+            for (b, w, tw, t, ci) in [("auto", 120, 2, False, 2), ("always_wrap", 120, 2, False, 2), ("auto", 40, 4, False, 1), ("always_wrap", 20, 3, False, 2),
+                                      ("auto", 60, 2, True, 2), ("always_wrap", 80, 8, False, 3)]]
+    tasks = program_tasks(tier, cfgs, [PLAIN, MIXED, COMMENTS, DIRECTIVES, ONELINE, ALLBREAKS], cfg_mode="rotate", sample_every=Q(tier, 499, 4999))
+    c.explore(tasks, "marks", ["C05"], sample_cap=Q(tier, 60, 300))
+    return c.finish(
+        rule="programs derived by TLC from Grammar.tla carry structure marks (statement / declaration member: own line, one unit deeper than the opener's line; closer: own line at the opener's indentation; control-flow begin under always_wrap); "
+             "each program x 6 layouts x rotating (begin_style, width, indentation) configurations; the marked tokens are located in the re-scanned output by ordinal. non-trivial = marks whose expectation was evaluated")
+
+
+def c06(tier):
+    build(("release",))
+    c = Check("C06", tier, "model_checking")
+    tasks = program_tasks(tier, Q(tier, "two", "six"), [PLAIN, COMMENTS, DIRECTIVES], alts=Q(tier, (0, 2, 3), (0, 2, 2, 3, 4, 1)), sample_every=Q(tier, 299, 2999))
+    # probes of the known finding F8 (spacing after a literal is copied from the input)
+    probes = os.path.join(WORK, "c06_probes.ndjson")
+    write_ndjson(probes, [
+        {"text": "x := 'abc' [1];\n", "wf": True, "label": "probe:literal-bracket", "meta": {"prog": {"marks": [], "nplain": 8, "regions": [], "alts": ["x := 'abc'[1];\n"], "decorated": 0}}},
+        {"text": "raise E at 1 at 2;\n", "wf": True, "label": "probe:number-word", "meta": {"prog": {"marks": [], "nplain": 7, "regions": [], "alts": ["raise E at 1at 2;\n"], "decorated": 0}}},
+    ])
+    tasks += texts_tasks(probes, "default", chunks=1, sample_every=1)
+    c.explore(tasks, "relayout", ["C06"], sample_cap=Q(tier, 80, 400))
+    return c.finish(
+        rule="each generated program x decoration (comments, blank-line groups, directives) is rendered with 3-6 further spacings (one line, random gaps incl. zero-width, every gap a break, CRLF+tabs); "
+             "IsRelayout (Session.tla) is evaluated by TLC on the scanned pair (same tokens, comment-touching gaps identical, blank-line groups kept) and the outputs must be byte-identical")
+
+
+def c07(tier):
+    build(("release",))
+    c = Check("C07", tier, "model_checking")
+    tasks = program_tasks(tier, Q(tier, "six", "wide"), [REGIONS, REGIONS2, REGIONS, REGIONS2] if tier == "quick" else [REGIONS, REGIONS2] * 8, cfg_mode="rotate", sample_every=Q(tier, 299, 4999))
+    t2, _ = soup_tasks("full", 2, "six", sample_every=Q(tier, 1999, 499))
+    tasks += t2 + walk_tasks(Q(tier, 20000, 300000), "six", sample_every=997)
+    c.explore(tasks, "regions", ["C07", "C08"], sample_cap=Q(tier, 80, 400))
+    return c.finish(
+        rule="verbatim regions inserted between any two tokens of generated programs (12 off / 5 on spellings incl. near-misses, regions reaching the end of file), toggle comments in token soup and random walks; "
+             "the byte string of every region computed by the specification's recogniser (Toggle.tla mirror) from the scanned input must occur in the output, in order, and the set of tokens the formatter treats as verbatim must be exactly the regions plus asm instruction lines")
+
+
+def c12(tier):
+    build(("release",))
+    c = Check("C12", tier, "model_checking")
+    cfgs = [{"format_multiline_strings": f, "line_ending": le, "use_tabs": t, "tab_width": tw, "wrap_column": w}
+            for (f, le, t, tw, w) in [(True, "lf", False, 2, 120), (True, "crlf", False, 4, 40), (False, "lf", False, 2, 120), (True, "lf", True, 2, 30), (False, "crlf", True, 2, 60)]]
+    tasks = program_tasks(tier, cfgs, [PLAIN, MIXED, CRLFTABS], cfg_mode="rotate", sample_every=Q(tier, 499, 4999))
+    tasks += seed_tasks(cfgs, sample_every=Q(tier, 97, 997))
+    c.explore(tasks, "mlstrings", ["C12"], sample_cap=Q(tier, 80, 400))
+    return c.finish(
+        rule="multi-line literals in generated programs (3 and 5 quotes, several bodies and indentations, every expression position of the grammar) and in the seeds, under 5 configurations; per literal: value equal and re-indented like the opening quotes' line when it obeys the indentation rule and the option is on, byte-identical otherwise")
